@@ -37,7 +37,7 @@ def vm_crosscheck(ctx, histories, model):
     for h, scr in enumerate(histories):
         pre = []
         for l in scr:
-            if l.split(' ')[0] in ('RF', 'EN', 'DE', 'RC', 'RT', 'SNAP', 'REST', 'RFBAD', 'AP', 'HINT'): break
+            if l.split(' ')[0] in ('RF', 'EN', 'DE', 'RC', 'RT', 'SNAP', 'REST', 'RFBAD', 'RFX', 'AP', 'HINT'): break
             pre.append(l)
         if len(pre) >= 6: picked.append((h, pre))
         if len(picked) >= 4: break
@@ -190,6 +190,16 @@ def run_profile(ctx, gen, n, config='default', claims=None, extra_oracle=None, t
         if probes:
             _, _, _, _, phits = run_profile(ctx, None, 0, config=config, claims=claims, extra_oracle=extra_oracle, trigger=None, label='directed search from disagreeing histories', model_check=False, histories=probes)
             hits = hits + phits
+    if config == 'default' and histories is None and not hits and (not label or label.startswith('cover relation')) and gen is not None and getattr(ctx, 'built_policies', True):
+        # the same profile with policies BUILT by the constructors (Broadcast anywhere in the tree): judged by the reference
+        # semantics only (the model's operations take strings)
+        hist.AST_SHARE[0] = 0.6
+        try: HB = [gen(ctx.rng) for _ in range(max(30, n // 8))]
+        finally: hist.AST_SHARE[0] = 0.0
+        HB = [h for h in HB if hist.has_built_policy(h)]
+        if HB:
+            _, _, _, _, bh = run_profile(ctx, None, 0, config=config, claims=claims, extra_oracle=extra_oracle, trigger=None, label=f'{ctx.prop} with policies built by the constructors', model_check=model_check, histories=HB)
+            hits = hits + bh
     if getattr(ctx, 'alt_histories', False) and config == 'default' and histories is None and not hits and not label and 'alt' not in getattr(ctx, 'unbuilt', ()):
         run_profile(ctx, gen, max(40, n // 10), config='alt', claims=claims, extra_oracle=extra_oracle, trigger=trigger, label=f'{ctx.prop} on the alternative build', model_check=model_check)
     return H, impl, model, dis, hits
